@@ -14,7 +14,7 @@ package tls
 //   - no data race (race runtime kills the process; driver maps it to VIOLATION);
 //   - every call returns: bound = I/O deadline (8 s on both pipe ends) + 10 s; a call that outlives the bound with its
 //     goroutine parked in a lock / channel operation in two goroutine dumps taken 3 s apart is a hang (VIOLATION);
-//     goroutines still runnable => machine too slow => the process kills itself (driver: INCONCLUSIVE);
+//     goroutines still runnable => machine too slow => VERIF-INCONCLUSIVE marker + exit (driver: INCONCLUSIVE);
 //   - each Handshake result is the shared outcome S (what a final Handshake() reports) or the caller's own ctx.Err()
 //     (only if the harness had really cancelled that ctx); nil => handshake complete at return; S == nil <=> complete;
 //   - own ctx error => the underlying connection was closed when the call returned;
@@ -40,7 +40,6 @@ import (
 	"strings"
 	"sync"
 	"sync/atomic"
-	"syscall"
 	"testing"
 	"time"
 
@@ -387,12 +386,12 @@ func vf26TrimDump(d string) string {
 	return s
 }
 
-// vf26Inconclusive: the machine was too slow to decide; the driver maps a killed worker to INCONCLUSIVE (exit 2).
+// vf26Inconclusive: the machine was too slow to decide; the driver maps the VERIF-INCONCLUSIVE marker of a failed
+// worker to INCONCLUSIVE (exit 2).
 func vf26Inconclusive(st *vfStats, msg string) {
 	fmt.Fprintf(os.Stderr, "VERIF-INCONCLUSIVE C26: %s\n", msg)
 	st.Flush()
-	syscall.Kill(os.Getpid(), syscall.SIGKILL)
-	select {}
+	os.Exit(3)
 }
 
 // vf26HardFail is used for hangs: goroutines are leaked, so neither shrinking nor re-running makes sense.
